@@ -7,7 +7,7 @@ from .common import last
 ID = "C13"
 BUDGET = {"quick": 2000, "thorough": 100000}
 RULE = ("a recording probe helper (dumps params / hash / block metadata as JSON, one dump per invocation) called as an "
-        "expression, a block and a subexpression with arity 0..6 and hash size 0..4; arguments: JSON literals of depth ≤ 3 "
+        "expression, a block and a subexpression with arity 0..6 and hash size 0..4; hash keys written twice (the last value counts); arguments: JSON literals of depth ≤ 3 "
         "(strings over an alphabet with quotes, backslashes, braces, unicode and control escapes in both quote styles; "
         "integers across the i64/u64 range; decimals with ≤ 15 significant digits; exponent forms), paths (present and "
         "missing), subexpressions nested ≤ 4 (lookup / eq / probe itself); block parameters 'as |a b|'; the same after a decorator replaced the render context; the tag at the root, in the body of a partial (with / without hash arguments) and inside a `with` over a subexpression result (the same data, held as a value owned by the scope); oracle = the values "
@@ -164,6 +164,10 @@ def gen_case(rng, i):
     args = [gen_arg(rng, 2) for _ in range(n)]
     keys = rng.shuffle(["k1", "k2", "zz", "a", "opt"])[:hn]
     hargs = [(k, gen_arg(rng, 1)) for k in keys]
+    if hargs and rng.chance(0.25):
+        # a key written more than once: the helper finds the LAST value written under it (one entry per key)
+        for _ in range(rng.range(1, 2)):
+            hargs.insert(rng.range(1, len(hargs)), (rng.pick(hargs)[0], gen_arg(rng, 1)))
     form = rng.pick(["expr", "expr", "block", "sub", "chain"])
     if form == "expr" and n == 0 and hn == 0:
         form = "block"
